@@ -101,8 +101,22 @@ class Extract:
     def block(self, b, loops, guards):
         nodes = list(b["stmts"]) + ([b["tail"]] if b["tail"] is not None else [])
         guards = list(guards)
+        from . import e4 as _e4
         for s in nodes:
             self.stmt(s, loops, guards)
+            # guard clauses: `if c { continue / break / return / panic }` restricts everything that follows in this block
+            # (and in the loops nested below it) to !c; symmetrically for a diverging else branch
+            s0 = strip(s)
+            if s0 is not None and s0.get("k") == "if" and strip(s0["c"]).get("k") != "letx":
+                P = _e4.Paths(self.c, lambda n_: False)
+                th_ex = all(k_ != _e4.FALL for (k_, _) in P.out(s0["th"]))
+                el_ex = s0["el"] is not None and all(k_ != _e4.FALL for (k_, _) in P.out(s0["el"]))
+                if th_ex != el_ex:
+                    try:
+                        g = self.norm(s0["c"], {})
+                    except ValueError:
+                        g = Rat.atom("?" + short(pretty(s0["c"]), 60))
+                    guards.append(e1.negate_cond(g) if th_ex else g)
 
     def opt_expr(self, n, env=None, depth=0):
         """Option-valued index arithmetic: `X.checked_sub(Y)` (possibly behind a crate-local helper) -> (X - Y, guard X >= Y)"""
